@@ -26,6 +26,8 @@ cycle as a deadlock.  Tie: `userCalls` of Generated/LdmShape.lean (`callbacks_ou
 """
 from __future__ import annotations
 
+import os as _os
+import time as _time
 import copy
 
 import common
@@ -1161,12 +1163,18 @@ def run(ctx):
             ctx.cover("scenarios_skipped")
             continue
         observed = {}
+        # thorough tier: once 45 % of the time budget is used the remaining scenarios get the quick-tier volume, so
+        # that a loaded machine ends in a (noted) truncation instead of a time-out
+        late = ctx.thorough and (_time.time() - ctx.t0) > 0.45 * int(_os.environ.get("VERIF_TIMEOUT_S", "3300"))
+        if late:
+            ctx.extra["truncated_by_time"] = ctx.extra.get("truncated_by_time", 0) + 1
+        b_, cap_, pct_, gcap_, gpct_ = (2, 110, 25, 110, 25) if late else (bound, cap, n_pct, gcap, gpct)
         if sc.get("generated"):
-            explore(ctx, sc, bound, gcap, gpct, observed)
-        elif "cap" in sc and not ctx.thorough:
-            explore(ctx, sc, bound, sc["cap"], sc.get("pct", n_pct), observed)
+            explore(ctx, sc, b_, gcap_, gpct_, observed)
+        elif "cap" in sc and (not ctx.thorough or late):
+            explore(ctx, sc, b_, sc["cap"], sc.get("pct", pct_), observed)
         else:
-            explore(ctx, sc, bound, cap, n_pct, observed)
+            explore(ctx, sc, b_, cap_, pct_, observed)
         if not (sc.get("db_only") or sc.get("nomodel")):
             batches.append((sc, observed))
         ctx.sample("scenario", {"scenario": sc["name"], "outcomes": len(observed),
